@@ -33,11 +33,11 @@ DRIVERS = ["Cache"]
 TABLES = True
 LEVEL = "proof"
 RULE = ("exhaustive product: all subsets of the cache-file universe {d.svg, d.png, d.txt, other.svg, other.png, junk} "
-        "(thorough: + d.svg.bak, d.PNG, d) x all registered formats + None + an unknown name x render()/as_<fmt> x "
+        "(thorough: + d.svg.bak, d.PNG) x all registered formats + None + an unknown name x render()/as_<fmt> x "
         "pretty_print x fallback_render_aird x internal renderer ok/failing x the ways of giving the cache (str path, "
         "pathlib path, file:// URL, zip+file:// URL, dict, dict with subdir, FileHandler instance (memory, local), "
         "same as the model path, falsy None/''/{}) x diagram roles swapped x an adversarial-uuid model (uuids '_D' and "
-        "'_D.svg'); plus real-converter runs on corpus diagrams with seeded random cache subsets. "
+        "'_D.svg', or colliding ones derived from the live extension table if it is not suffix-free); plus real-converter runs on corpus diagrams with seeded random cache subsets. "
         "distinct = distinct (mode, way, model, diagram, files, fmt, via, pretty, fallback, fresh_ok); non-trivial = a "
         "cache is configured and the format is registered (the lookup runs)")
 ASSUMPTIONS = [
@@ -533,13 +533,27 @@ def _imports():
     return D
 
 
+LIB_UIDS = ("_yLAzgKNzEeyJNLcTD9ngpQ", "_yyMh8aFHEeyn0YWM8vjd5w")
+
+
+def adversarial_uuids(live: dict) -> dict:
+    """uuids for the two Library Test diagrams whose cache names would collide if the live extension table were not
+    suffix-free (ext' = a + ext -> uuids '_D' and '_D' + a); with a suffix-free table: '_D' and '_D.svg'."""
+    exts = [r["ext"] for r in live["convs"] if r["ext"] and r["fromCache"]]
+    for e in exts:
+        for e2 in exts:
+            if e2 != e and e2.endswith(e):
+                return {LIB_UIDS[0]: "_D", LIB_UIDS[1]: "_D" + e2[: len(e2) - len(e)]}
+    return {LIB_UIDS[0]: "_D", LIB_UIDS[1]: "_D.svg"}
+
+
 def universe(uuid: str, others: list[str], thorough: bool) -> list[str]:
     u = [uuid + ".svg", uuid + ".png", uuid + ".txt"]
     for o in others[:1]:
         u += [o + ".svg", o + ".png"]
     u.append("junk.bin")
     if thorough:
-        u += [uuid + ".svg.bak", uuid + ".PNG", uuid]
+        u += [uuid + ".svg.bak", uuid + ".PNG"]
     return u
 
 
@@ -655,7 +669,7 @@ def run(ctx: Ctx) -> Outcome:
             yield from (list(c) for c in itertools.combinations(u, r))
 
     all_fmts = [None, "bogus"] + fmts
-    adversarial = {"_yLAzgKNzEeyJNLcTD9ngpQ": "_D", "_yyMh8aFHEeyn0YWM8vjd5w": "_D.svg"}
+    adversarial = adversarial_uuids(live)
     # (A) exhaustive, tagged converters, Library Test (two diagrams; both roles), every way
     run_mode("tag", [(lib, "lib", None)], WAYS, all_subsets, all_fmts, (False, True), (True, False), ("render", "as"),
              lambda n: range(min(n, 2)))
@@ -741,7 +755,7 @@ def replay(ctx: Ctx, case: dict) -> str | None:
     D = _imports()
     data = common.REPO / "tests" / "data"
     srcs = {"lib": (data / "Library Test", None),
-            "adv": (data / "Library Test", {"_yLAzgKNzEeyJNLcTD9ngpQ": "_D", "_yyMh8aFHEeyn0YWM8vjd5w": "_D.svg"})}
+            "adv": (data / "Library Test", adversarial_uuids(__import__("gen_formats").collect()))}
     src, rewrite = srcs.get(case["model"], (data / "melodymodel" / case["model"], None))
     out = Outcome()
     P = install(case["mode"])
